@@ -10,6 +10,7 @@ CONSTANTS
   Wraps = {0}
   Kinds = {"A", "M"}
   Types = {}
+  Crashes = TRUE
   Rejects = FALSE
   Persist = FALSE
   EmitDepth = 0
